@@ -97,6 +97,10 @@ def graph_from_edges(rnd, n, edges, kinds):
                 nd += 1
             else:
                 lst.append(b)
+        if lst and rnd.random() < 0.35:
+            # the same result mentioned more than once in one list ([N, N, Back]): one reference as far as the graph is concerned
+            lst = lst + [rnd.choice(lst) for _ in range(rnd.randint(1, 2))]
+            rnd.shuffle(lst)
         if lst:
             args.append(("L", lst) if rnd.random() < 0.7 else ("N", [lst]))
         rnd.shuffle(args)
@@ -132,19 +136,28 @@ def on_cycle(n, graph, u):
     return False
 
 
-def ref_eval(n, graph):
-    """independent evaluation of an acyclic graph"""
+def ref_eval(n, graph, ids=None):
+    """independent evaluation of an acyclic graph (ids: the Id argument of each command, by default its index)"""
     memo = {}
+    ids = ids or {}
 
     def ev(u):
         if u not in memo:
             hs = [ev(t) for _, t in rl_of(graph[u])]
-            memo[u] = None if probe.returns_none(u) else probe.combine(u, [probe.NONE_H if h is None else h for h in hs])
+            k = ids.get(u, u)
+            memo[u] = None if probe.returns_none(k) else probe.combine(k, [probe.NONE_H if h is None else h for h in hs])
         return memo[u]
     return {u: ev(u) for u in range(n)}
 
 
 # ---------- observation ----------
+def graph_arg_names(v):
+    """an argument value with every Command object replaced by its result name"""
+    if isinstance(v, (list, tuple)):
+        return [graph_arg_names(x) for x in v]
+    return getattr(v, "result_name", v)
+
+
 def topo_order(rnd, graph):
     """a random order in which every command comes after the commands it references"""
     done, order, todo = set(), [], sorted(graph)
@@ -185,10 +198,12 @@ def build_api(graph, order, by_object):
     return p, "\n".join(text)
 
 
-def observe(graph, order, ops, by_object=None):
+def observe(graph, order, ops, by_object=None, flaky=(), replace=None):
     n = len(graph)
     src = render(graph, order)
     del probe.LOG[:]
+    probe.FLAKY.clear()
+    probe.FLAKY.update(flaky)
     obs = {"tag": 3, "rep": None, "vals": [], "enter": [], "exit": [], "after": 0, "detail": "", "identity_ok": True}
     try:
         if by_object is not None:
@@ -198,11 +213,29 @@ def observe(graph, order, ops, by_object=None):
     except Exception as ex:  # the generated programs are all loadable
         obs["detail"] = "load: %s" % type(ex).__name__
         return src, obs
+    if replace is not None:
+        # the model is edited through the API before it runs: one command is removed and added again under the same name with
+        # another Id (so with another value); everything that refers to that name is fed by the new command
+        e, new_id = replace
+        old = p.commands["r%d" % e]
+        args = {"Id": new_id}
+        for a in old.arguments:
+            if a.name != "Id":
+                args[a.name] = graph_arg_names(a.value)
+        del p.commands["r%d" % e]
+        p.add_command(type(old), "r%d" % e, args)
+        src += "\n# then, in code: del p.commands['r%d']; p.add_command(Probe, 'r%d', {'Id': %d, <the same references by name>})" % (e, e, new_id)
     lines = {c.lineno: int(name[1:]) for name, c in p.commands.items()}
     old_limit = sys.getrecursionlimit()
     sys.setrecursionlimit(400)   # keeps the pinned tree's runaway recursion on cycles cheap to observe
     try:
         try:
+            for attempt in range(len(flaky)):
+                try:
+                    p.run()
+                    break
+                except UnexpectedError:
+                    obs["failed_runs"] = obs.get("failed_runs", 0) + 1      # a flaky command failed; run again
             p.run()
             obs["tag"] = 0
         except RecursiveModelStructure as ex:
@@ -227,7 +260,7 @@ def observe(graph, order, ops, by_object=None):
             obs["consumed"] = sorted(set((int(e[1][1:]), int(e[2][1:])) for e in log1 if e[0] == "consumed"))
             # exit of the producer precedes exit of the consumer
             pos = {e[1]: k for k, e in enumerate(log1) if e[0] == "exit"}
-            obs["order_ok"] = all(pos["r%d" % b] < pos["r%d" % a] for a, b in obs["consumed"])
+            obs["order_ok"] = all(("r%d" % b) in pos and ("r%d" % a) in pos and pos["r%d" % b] < pos["r%d" % a] for a, b in obs["consumed"])
             vals = {}
             for name, c in p.commands.items():
                 vals[int(name[1:])] = c._result.h if c.is_finished and c._result is not None else None
@@ -307,6 +340,10 @@ def main():
             jobs.append((g, order, ops))
             if rnd.random() < 0.25:  # the same graph built in code, references given as Command objects and/or names
                 jobs.append((g, topo_order(rnd, g), ops, [rnd.random() < 0.6 for _ in range(7)]))
+            if rnd.random() < 0.15 and nn >= 2:   # one or two commands fail the first time they execute; the model is run again
+                jobs.append((g, order, ops, None, {"flaky": rnd.sample(range(nn), rnd.randint(1, min(2, nn)))}))
+            if rnd.random() < 0.15 and nn >= 2:   # a command replaced through the API before the run
+                jobs.append((g, order, ops, None, {"replace": (rnd.randrange(nn), 1000 + rnd.randrange(50))}))
             if rnd.random() < 0.3:   # the same graph in another file order (C02: order independence)
                 order2 = list(order)
                 rnd.shuffle(order2)
@@ -336,8 +373,11 @@ def main():
     for job in jobs:
         g, order, ops = job[:3]
         nn = len(g)
-        src, obs = observe(g, order, ops, job[3] if len(job) > 3 else None)
-        dist["built_in_code"] = dist.get("built_in_code", 0) + int(len(job) > 3)
+        extra = job[4] if len(job) > 4 else {}
+        src, obs = observe(g, order, ops, job[3] if len(job) > 3 else None, flaky=extra.get("flaky", ()), replace=extra.get("replace"))
+        dist["built_in_code"] = dist.get("built_in_code", 0) + int(len(job) > 3 and job[3] is not None)
+        dist["flaky_histories"] = dist.get("flaky_histories", 0) + int("flaky" in extra)
+        dist["edited_models"] = dist.get("edited_models", 0) + int("replace" in extra)
         cyc = has_cycle(nn, g)
         dist["programs"] += 1
         dist["sizes"][nn] = dist["sizes"].get(nn, 0) + 1
@@ -346,8 +386,9 @@ def main():
         dist["history_ops"] += len(ops)
         key = "cyclic" if cyc else "acyclic"
         dist["outcomes"][key + ":" + str(obs["tag"])] = dist["outcomes"].get(key + ":" + str(obs["tag"]), 0) + 1
-        cases.append(c_case(g, order, ops, obs))
-        descr.append({"source": src, "history": ops, "observed": {k: obs[k] for k in ("tag", "rep", "after", "detail")}})
+        if not extra:        # (flaky commands and API edits are outside the Coq model: judged by the oracle below only)
+            cases.append(c_case(g, order, ops, obs))
+            descr.append({"source": src, "history": ops, "observed": {k: obs[k] for k in ("tag", "rep", "after", "detail")}})
         nrefs = sum(len(rl_of(g[i])) for i in g)
         sig = json.dumps([sorted((i, g[i]) for i in g), order, ops], default=str)
         if sig not in seen:
@@ -359,13 +400,16 @@ def main():
                     nontrivial += 1
             elif nn >= 1 and cyc:
                 nontrivial += 1
-        replay = {"source": src, "libraries": ["verif_cmds"], "history": ops, "built": "Program.add_command" if len(job) > 3 else "Program.from_source"}
+        replay = {"source": src, "libraries": ["verif_cmds"], "history": ops, "built": "Program.add_command" if len(job) > 3 and job[3] is not None else "Program.from_source"}
+        if "flaky" in extra:
+            replay["commands_that_fail_on_their_first_execution"] = ["r%d" % k for k in extra["flaky"]]
+            replay["history"] = ["run() until it succeeds (%d failed runs observed)" % obs.get("failed_runs", 0)] + list(ops)
         # ----- property oracle on the real code -----
         if not cyc:
             if obs["tag"] != 0:
                 fails.append({"sig": "C01:run-failed", "what": "acyclic program did not run: %s" % obs["detail"], "replay": replay})
                 continue
-            bad = [x for x in obs["enter"] + obs["exit"] if x[1] != 1]
+            bad = [x for x in (obs["exit"] if "flaky" in extra else obs["enter"] + obs["exit"]) if x[1] != 1]
             if bad:
                 fails.append({"sig": "C01:not-exactly-once", "what": "commands not executed exactly once (command, count): %r" % bad[:5], "replay": replay})
             if not obs["identity_ok"] or not obs.get("order_ok", True):
@@ -375,7 +419,7 @@ def main():
                 fails.append({"sig": "C01:wrong-dependencies", "what": "consumed results differ from the referenced commands", "replay": replay})
             if obs["after"] != 0 or not obs.get("same_objects_after", True):
                 fails.append({"sig": "C01:re-executed", "what": "running again / reading results again executed %d further events" % obs["after"], "replay": replay})
-            ref = ref_eval(nn, g)
+            ref = ref_eval(nn, g, {extra["replace"][0]: extra["replace"][1]} if "replace" in extra else None)
             wrong = [(i, v) for i, v in obs["vals"] if ref[i] != v]
             if wrong:
                 fails.append({"sig": "C02:value", "what": "result differs from the evaluation of the graph for commands %r" % [w[0] for w in wrong][:5], "replay": replay})
